@@ -45,9 +45,6 @@ package field
 //@   ensures val: eval(x) == ite(old(eval(x)) < P, old(eval(x)), old(eval(x)) - P)
 //@   modifies *x
 
-//@ func Element.Equals
-//@   mode bv
-//@   ensures limbs: result == ite(e.E[0] == u.E[0] && e.E[1] == u.E[1] && e.E[2] == u.E[2] && e.E[3] == u.E[3], 1, 0)
 
 // ---- Montgomery glue lemmas (Lean: lemmas/Secp/SecpG.lean) ----
 //@ declare finv(F) F
@@ -126,3 +123,126 @@ package field
 //@   ensures wf: eval(out1) < P
 //@   derives fv: fromM(eval(out1)) == fofint(old(eval(arg1))) by glue_to(eval(out1), old(eval(arg1)))
 //@   modifies *out1
+
+// ---- field value layer: fv(e) = fromM(eval(e.E)) in F_p, wf(e) = eval(e.E) < P ----
+
+//@ lemma glue_zero(x) {lean: Secp.glue_zero}: imp(x < P, (fromM(x) == F(0)) == (x == 0))
+//@ lemma glue_inj(x, y) {lean: Secp.glue_inj}: imp(x < P && y < P, (fromM(x) == fromM(y)) == (x == y))
+//@ lemma fofint_mod(x, y) {lean: Secp.fofint_mod}: imp((x - y) % P == 0, fofint(x) == fofint(y))
+//@ lemma fint_range(x) {lean: Secp.fint_range}: 0 <= fint(x) && fint(x) < P
+//@ lemma fofint_fint(x) {lean: Secp.fofint_fint}: imp(0 <= x && x < P, fint(fofint(x)) == x)
+
+//@ func Element.One
+//@   mode int
+//@   ensures v: wf(e) && fv(e) == F(1)
+//@   modifies *e
+//@   returns e
+
+//@ func Element.Add
+//@   mode int
+//@   requires wf(u) && wf(v)
+//@   ensures v: wf(e) && fv(e) == fadd(old(fv(u)), old(fv(v)))
+//@   modifies *e
+//@   returns e
+
+//@ func Element.Subtract
+//@   mode int
+//@   requires wf(u) && wf(v)
+//@   ensures v: wf(e) && fv(e) == fsub(old(fv(u)), old(fv(v)))
+//@   modifies *e
+//@   returns e
+
+//@ func Element.Multiply
+//@   mode int
+//@   requires wf(u) && wf(v)
+//@   ensures v: wf(e) && fv(e) == fmul(old(fv(u)), old(fv(v)))
+//@   modifies *e
+//@   returns e
+
+//@ func Element.Negate
+//@   mode int
+//@   requires wf(u)
+//@   ensures v: wf(e) && fv(e) == fneg(old(fv(u)))
+//@   modifies *e
+//@   returns e
+
+//@ func Element.Square
+//@   mode int
+//@   requires wf(u)
+//@   ensures v: wf(e) && fv(e) == fmul(old(fv(u)), old(fv(u)))
+//@   modifies *e
+//@   returns e
+
+//@ func Element.Sgn0
+//@   mode int
+//@   requires wf(e)
+//@   ensures par: result == fint(fv(e)) % 2
+
+//@ func Element.CMove
+//@   mode int
+//@   requires c01: c <= 1
+//@   requires wf(u) && wf(v)
+//@   ensures v: wf(e) && fv(e) == ite(c == 0, old(fv(u)), old(fv(v)))
+//@   modifies *e
+//@   returns e
+
+//@ func Element.IsZero
+//@   mode int
+//@   requires wf(e)
+//@   ensures limbs: result == ite(eval(e) == 0, 1, 0)
+//@   derives z: result == ite(fv(e) == F(0), 1, 0) by glue_zero(eval(e))
+
+//@ func Element.Equals
+//@   mode int
+//@   requires wf(e) && wf(u)
+//@   ensures limbs: result == ite(eval(e) == eval(u), 1, 0)
+//@   derives eq: result == ite(fv(e) == fv(u), 1, 0) by glue_inj(eval(e), eval(u))
+
+//@ func Element.Bytes
+//@   mode int
+//@   requires wf(e)
+//@   ensures enc: os2ip(result) == fint(fv(e))
+//@   returns fresh:32
+
+//@ func Element.FromBytesWithReduce
+//@   mode int
+//@   ensures flag: result1 == ite(os2ip(input) < P, 1, 0)
+//@   ensures v: wf(e) && fv(e) == fofint(os2ip(input)) by fofint_mod(os2ip(input), os2ip(input) - P)
+//@   modifies *e
+//@   returns e
+
+//@ func Element.FromBytesNoReduce
+//@   mode int
+//@   lens input 16,24
+//@   requires len(input) == 16 || len(input) == 24
+//@   ensures v: wf(e) && fv(e) == fofint(os2ip(input))
+//@   modifies *e
+//@   returns e
+
+//@ lemma fofint_wide(a, b, c) {lean: Secp.fofint_wide}: fadd(fadd(fofint(a), fmul(fofint(b), F(pow2(192)))), fmul(fofint(c), F(pow2(384)))) == fofint(a + b * pow2(192) + c * pow2(384))
+
+//@ func Element.HashToFieldElement
+//@   mode int
+//@   ensures v: wf(e) && fv(e) == fofint(os2ip(input)) by fofint_wide(os2ip(input[24:48]), os2ip(input[0:24]), 0)
+//@   modifies *e
+//@   returns e
+
+//@ declare fpow(F, Int) F
+//@ declare issq(F) Bool
+//@ lemma fermat_inv(x) {lean: Secp.fermat_inv}: fpow(x, P - 2) == finv(x)
+
+//@ func Element.Invert
+//@   mode pow
+//@   requires wf(x)
+//@   ensures pw: wf(z) && fv(z) == fpow(old(fv(x)), P - 2)
+//@   derives inv: fv(z) == finv(old(fv(x))) by fermat_inv(old(fv(x)))
+//@   modifies *z
+//@   returns z
+
+//@ func Element.expPMin3Div4
+//@   mode pow
+//@   requires !same(z, x)
+//@   requires wf(x)
+//@   ensures pw: wf(z) && fv(z) == fpow(old(fv(x)), (P - 3) / 4)
+//@   modifies *z
+//@   returns z
